@@ -123,9 +123,55 @@ class DiagView:
 
 def einsum(ev, a, k):
     spec = a[0]
-    if not isinstance(spec, str) or spec.replace(" ", "") != "...ii->...i" or not isinstance(a[1], ArrV) or len(a[1].shape) != 2:
-        raise AnalysisError(f"numpy.einsum({spec!r}) is not the writable-diagonal idiom")
-    return DiagView(a[1])
+    if not isinstance(spec, str):
+        raise AnalysisError("numpy.einsum with a non-constant subscript string")
+    if spec.replace(" ", "") == "...ii->...i" and len(a) == 2 and isinstance(a[1], ArrV) and len(a[1].shape) == 2:
+        return DiagView(a[1])       # the writable-diagonal idiom
+    if set(k) - {"dtype", "optimize", "casting", "order"}:
+        raise AnalysisError(f"numpy.einsum keyword(s) {sorted(k)} not modelled")
+    return general_einsum(spec.replace(" ", ""), list(a[1:]))
+
+
+def general_einsum(spec, ops):
+    """explicit-output einsum over the constant trailing axes of ArrV operands; '...' stands for the symbolic grid axes"""
+    if "->" not in spec:
+        raise AnalysisError(f"numpy.einsum({spec!r}): implicit output not modelled")
+    ins, out = spec.split("->")
+    ins = ins.split(",")
+    if len(ins) != len(ops):
+        raise AnalysisError(f"numpy.einsum({spec!r}): {len(ops)} operands")
+    sizes, parsed, batch = {}, [], 0
+    for s, o in zip(ins, ops):
+        if not isinstance(o, ArrV):
+            raise AnalysisError(f"numpy.einsum({spec!r}): operand is not a small array")
+        ell = s.startswith("...")
+        letters = s[3:] if ell else s
+        if "." in letters or len(letters) != len(o.shape) or (o.batch and not ell):
+            raise AnalysisError(f"numpy.einsum({spec!r}): operand subscripts do not match its axes")
+        batch = max(batch, o.batch)
+        for l, d in zip(letters, o.shape):
+            if sizes.setdefault(l, d) != d:
+                raise AnalysisError(f"numpy.einsum({spec!r}): inconsistent size for {l}")
+        parsed.append((letters, o))
+    oell = out.startswith("...")
+    ol = out[3:] if oell else out
+    if "." in ol or (batch and not oell) or len(set(ol)) != len(ol) or any(l not in sizes for l in ol):
+        raise AnalysisError(f"numpy.einsum({spec!r}): output subscripts not modelled")
+    summed = [l for l in sizes if l not in ol]
+    res = ArrV(batch, [sizes[l] for l in ol])
+    for okey in itertools.product(*[range(sizes[l]) for l in ol]):
+        asg = dict(zip(ol, okey))
+        tot = sp.Integer(0)
+        for skey in itertools.product(*[range(sizes[l]) for l in summed]):
+            asg.update(zip(summed, skey))
+            term = sp.Integer(1)
+            for letters, o in parsed:
+                term *= as_sym(o.get(tuple(asg[l] for l in letters)))
+                if term == 0:
+                    break
+            tot += term
+        res.cells[tuple(okey)] = tot
+    return res if ol or batch else res.get(())
 
 
 LINALG = {"numpy.linalg.eigh": eigh, "numpy.linalg.eigvalsh": eigvalsh, "numpy.diag": diag, "numpy.diagonal": diagonal,
